@@ -524,7 +524,7 @@ def ops(case):
                 for n in names:
                     v = tr.get(n, n)
                     toks.append("s:" + v if isinstance(v, str) else "c:" + fl(v))
-        return ["c13.fit code " + " ".join(toks), "c13.fit fixed " + " ".join(toks)]
+        return ["c13.fit both " + " ".join(toks), "c13.fit fixed " + " ".join(toks)]
     raise ValueError(k)
 
 
@@ -614,9 +614,23 @@ def agree(case, i, ia, ma):
             if " | " not in ia or " | " not in ma:
                 return ia == ma
             na, ja = ia.split(" | ")
-            nb, jb = ma.split(" | ")
+            parts = ma.split(" | ")
+            nb, jb = parts[0], parts[1]
             if na != nb:
                 return False
+            if i == 0 and len(parts) == 3 and parts[1] != parts[2]:
+                # a data set maps two parameters to one global (F9): the model gives the code's buffered update and
+                # the accumulating one; the implementation must be one of them (the oracle says which is right)
+                return fit_rows_agree(case, 0, na, ja, parts[1]) or fit_rows_agree(case, 0, na, ja, parts[2])
+            return fit_rows_agree(case, i, na, ja, jb)
+    except Exception:
+        return False
+    return ia == ma
+
+
+def fit_rows_agree(case, i, na, ja, jb):
+    if True:
+        if True:
             A, B = parse_rows(ja), parse_rows(jb)
             if len(A) != len(B):
                 return False
@@ -631,15 +645,27 @@ def agree(case, i, ia, ma):
                 if not rows_close(ra, rb, g, rel, 1.0e-9 if i == 0 else 1.0e-5):
                     return False
             return True
-    except Exception:
-        return False
-    return ia == ma
 
 
 # ------------------------------------------------------------------ oracle
 
 
+def clause_class(clause):
+    return (clause or "").split(":")[0].split("[")[0]
+
+
 def oracle(case, ia):
+    """the clause violated by the implementation's answers, or None.  A case produced by `shrink` carries the class
+    of its parent's clause (`_want_class`): a candidate that fails in a DIFFERENT way is not a smaller version of the
+    same failure (and must not be allowed to drift into the input class of a known finding)."""
+    clause = oracle_(case, ia)
+    case["_class"] = clause_class(clause)
+    if clause and case.get("_want_class") not in (None, case["_class"]):
+        return None
+    return clause
+
+
+def oracle_(case, ia):
     _quiet()
     k = case["op"]
     try:
@@ -785,9 +811,9 @@ def nontrivial(case, ia):
 def tags(case, r):
     t = {"op": case["op"]}
     if case["op"] == "fit":
-        t["clause_class"] = (r.get("clause") or "").split(":")[0]
+        t["clause_class"] = clause_class(r.get("clause"))
     if case["op"] == "tree":
-        t["clause_class"] = (r.get("clause") or "").split(":")[0]
+        t["clause_class"] = clause_class(r.get("clause"))
         t["inv_over_cubic_leaf"] = inv_over_cubic(case["tree"])
         t["error"] = r["impl"][1] if len(r.get("impl", [])) > 1 and r["impl"][1].endswith("Error") else None
     return t
@@ -800,6 +826,13 @@ def inv_over_cubic(tree):
 
 
 def shrink(case):
+    for c in shrink_(case):
+        c = {k: v for k, v in c.items() if k not in ("_class", "_skipped")}
+        c["_want_class"] = case.get("_want_class") or case.get("_class")
+        yield c
+
+
+def shrink_(case):
     k = case["op"]
     if k == "fit":
         ms = case["models"]
